@@ -66,6 +66,9 @@ def run(ctx):
                       ["addtext_tidy", "rendertext_tidy", "newline_run", "newline_run_indented", "nlcont_emits",
                        "to_column_spaces_only_partial", "to_column_tabs_then_spaces_partial", "to_column_spaces_only_flushed",
                        "to_column_tabs_then_spaces_flushed", "first_on_line_prefix", "render_gap"])
+    common.lean_extra(ctx, "UncModel.Props.PpBody",
+                      ["PpBody_no_backslash_blank", "PpBody_no_trailing_blank", "PpBody_no_line_break", "PpBody_only_blanks_dropped",
+                       "PpBody_old_trailing_tab_witness"], namespace="Unc.PpBody")
     exe = common.build_repo(hooks=True)
     thorough = ctx.tier == "thorough"
     rng = ctx.rng
@@ -245,12 +248,68 @@ def run(ctx):
                     if ebad <= 3:
                         _viol(ctx, j, "nl_%s_of_file=%s min=%s: %d line breaks at the %s of the output, model says %s"
                               % (which, opt, mn, got, which, model), found=direct_bad)
+        ppbody_tie(ctx, exe, sc)
         ctx.oblige("EOF/SOF policy: eatEdge model = real count of line breaks at both file edges (%d runs)" % len(eof_jobs), ebad == 0, "corr")
         ctx.oblige("direct oracles: no trailing blank, indentation characters, on %d runs" % len(jobs), obad == 0, "oracle", "%d failures" % obad)
         if jobs:
             ctx.sample({"run": jobs[0].name, "opts": jobs[0].meta["opts"], "input_head": jobs[0].meta.get("text", "")[:200]})
     finally:
         sc.close()
+
+
+def ppbody_tie(ctx, exe, sc):
+    """tie of PpBody.lean (`parse_next()`: body of an unknown directive, then the strip of `tokenize()`): exhaustive over all tails of
+    length <= 4 (thorough: 5) over {a, blank, TAB, backslash, '/', '*'} behind `#pragma k` / `#error k` / `#warning k`; the text of the
+    first CT_PREPROC_BODY chunk of the directive line at P0 must be the model's `body`."""
+    import itertools
+    alpha = "a \t\\/*"
+    maxn = 5 if ctx.tier == "thorough" else 4
+    tails = [""] + ["".join(t) for n in range(1, maxn + 1) for t in itertools.product(alpha, repeat=n)]
+    per = 150
+    jobs = []
+    for d, directive in enumerate(("#pragma", "#error", "#warning")):
+        sub = tails if d == 0 else tails[d::3]
+        for b in range(0, len(sub), per):
+            batch = sub[b:b + per]
+            txt = "".join("%s k%s\nint s%d; /* z */\n" % (directive, tl, k) for k, tl in enumerate(batch))
+            pth = sc.write(txt, ".c")
+            jobs.append(pipeline.Job("ppbody:%s:%d" % (directive, b), sc.cfg(None, {}), pth, "C", {"batch": batch, "text": txt}))
+    pipeline.run_jobs(exe, jobs)
+    reqs, owners = [], []
+    missing = 0
+    for j in jobs:
+        if j.res["rc"] != 0 or not j.res.get("trace"):
+            missing += len(j.meta["batch"])
+            continue
+        hdr, p0 = unc.dump(j.res["trace"], "P0")
+        first = {}
+        for ln in p0:
+            c = unc.parse_chunk(ln)
+            if c["t"] == "PREPROC_BODY" and c["ol"] % 2 == 1 and c["ol"] not in first:
+                first[c["ol"]] = "".join(chr(x) for x in c["txt"])
+        for k, tl in enumerate(j.meta["batch"]):
+            raw = "k" + tl + "\n"
+            reqs.append("ppbody.run " + ".".join("%x" % ord(ch) for ch in raw))
+            owners.append((j, tl, first.get(2 * k + 1)))
+    ans = common.run_driver(reqs) if reqs else []
+    bad = 0
+    for (j, tl, got), a in zip(owners, ans):
+        ctx.case("ppbody:%s:%r" % (j.name.split(":")[1], tl))
+        mh = a.split(" ")[0]
+        model = "" if mh == "-" else "".join(chr(int(x, 16)) for x in mh.split("."))
+        if got is None or model != got:
+            bad += 1
+            if bad <= 3:
+                line = "%s k%s" % (j.name.split(":")[1], tl)
+                ends_blank = bool(got) and got[-1] in " \t"
+                ctx.violation("parse_next() directive body: line %r gives the CT_PREPROC_BODY text %r, model PpBody.body gives %r%s"
+                              % (line, got, model, " -- the chunk text ends in a blank: the output line ends in a blank" if ends_blank else ""),
+                              {"input_text": line + "\nint s;\n", "language": "C", "config": {}, "chunk_text": got, "model": model,
+                               "theorem": "PpBody_no_trailing_blank (Props/PpBody.lean) is about the model; correspondence ppbody.run"},
+                              key=None, found_input=ends_blank)
+    ctx.oblige("tie: text of the CT_PREPROC_BODY chunk of #pragma/#error/#warning lines = PpBody.body (PpBody.lean), exhaustive over %d tails "
+               "of length <= %d over {a, blank, TAB, backslash, /, *} (%d lines compared, %d not compared)" % (len(tails), maxn, len(owners), missing),
+               bad == 0 and missing == 0 and len(owners) > 1500, "corr", "%d mismatches" % bad)
 
 
 def _trailing(out, nl):
